@@ -1,4 +1,98 @@
 import RP.Driver.Common
--- line-protocol driver for property C11 (stub)
-def handle (_line : String) : String := "unimplemented"
-def main : IO Unit := RP.Driver.run handle
+import RP.Driver.GameOps
+import RP.Lemmas.Menu
+/-! line-protocol driver for C11 (runs the definitions the theorems of `RP.Props.C11` are about:
+`RP.TreeShape.choices / actionize`, `RP.Menu.actionizeF32 / betF32`, `RP.Codec.pathOfEdges /
+pathToEdges / edgeToU8 / edgeOfU8 / edgeToU64 / edgeOfU64`).
+
+```
+menu <h0> <h1> | <action>* | <n>+    -> "<turn> <pot> <toRaise> <toShove> | <section> ; <section> …", one section per raise
+                                        count n: "<path u64> <u8 code>:<concrete action> …" in menu order
+                                        (`panic` when the history is rejected; path `panic` when the menu
+                                        does not pack). An entry whose float translation (`actionizeF32`)
+                                        differs from the integer one is marked with a trailing `!F32`.
+pack <u8 code>*                      -> "<path u64> <decoded u8 code>*"   (`panic`: more than 16 edges)
+edge <u8 code>                       -> "<u64 code> <u8 code of Edge::from(u64 code)>"
+f32 <num> <den> <lo> <hi>            -> `(pot as f32 * (num as f32 / den as f32)) as i16` for pot = lo..=hi
+```
+actions as in `GameOps` (`f x c<n> r<n> s<n> b<n> d<mask>`); a dealt hand prints as `D`. -/
+open RP.Driver RP.Driver.GameOps RP.Game RP.TreeShape RP.Menu
+open RP.Codec (Edge)
+
+namespace RP.Driver.C11
+
+def codeOf (e : Edge) : String :=
+  match RP.Codec.edgeToU8 e with
+  | some c => toString c
+  | none => "panic"
+
+def parseNats? : List String → Option (List Nat)
+  | [] => some []
+  | s :: ss =>
+    match s.toNat?, parseNats? ss with
+    | some a, some as => some (a :: as)
+    | _, _ => none
+
+def menuSection (g : Game) (n : Nat) : String :=
+  let m := choices g n
+  let path := match RP.Codec.pathOfEdges m with
+    | some p => toString p
+    | none => "panic"
+  let entries := m.map fun e =>
+    let a := actionize g 0 e
+    let mark := if actionizeF32 g 0 e == a then "" else "!F32"
+    s!"{codeOf e}:{showAction a}{mark}"
+  joinSp (path :: entries)
+
+def codesOfEdges (es : List Edge) : String := joinSp (es.map codeOf)
+
+def handle (line : String) : String :=
+  match words line with
+  | "pack" :: cs =>
+    match parseNats? cs with
+    | none => "bad-op"
+    | some cs =>
+      match RP.Codec.optAll RP.Codec.edgeOfU8 cs with
+      | none => "bad-op"
+      | some es =>
+        match RP.Codec.pathOfEdges es with
+        | none => "panic"
+        | some p =>
+          match RP.Codec.pathToEdges p with
+          | none => s!"{p} panic"
+          | some back => joinSp (toString p :: back.map codeOf)
+  | ["edge", c] =>
+    match c.toNat? with
+    | none => "bad-op"
+    | some c =>
+      match RP.Codec.edgeOfU8 c with
+      | none => "bad-op"
+      | some e =>
+        let w := RP.Codec.edgeToU64 e
+        match RP.Codec.edgeOfU64 w with
+        | none => s!"{w} panic"
+        | some e' => s!"{w} {codeOf e'}"
+  | ["f32", n, d, lo, hi] =>
+    match n.toNat?, d.toNat?, lo.toNat?, hi.toNat? with
+    | some n, some d, some lo, some hi =>
+      if hi < lo ∨ hi > 40000 then "bad-op" else
+      joinSp ((List.range (hi - lo + 1)).map fun k => toString (betF32 ((lo + k : Nat) : Int) n d))
+    | _, _, _, _ => "bad-op"
+  | "menu" :: _ =>
+    match splitBar (words line) with
+    | [[_, h0, h1], hist, ns] =>
+      match h0.toNat?, h1.toNat?, parseActions? hist, parseNats? ns with
+      | some h0, some h1, some as, some ns =>
+        if ns.isEmpty then "bad-op" else
+        match run? (root h0 h1) as with
+        | none => "panic"
+        | some g =>
+          s!"{showTurn (turn g)} {g.pot} {toRaise g} {toShove g} | " ++
+            " ; ".intercalate (ns.map (menuSection g))
+      | _, _, _, _ => "bad-op"
+    | _ => "bad-op"
+  | _ => "bad-op"
+
+end RP.Driver.C11
+
+def main : IO Unit := RP.Driver.run RP.Driver.C11.handle
